@@ -123,10 +123,10 @@ prop("C11", "exploration",
           "observation hash")
 prop("C02", "exploration",
      quick=[("tracks_audit", "fast", 1200), ("mixed_audit", "fast", 400), ("foreign", "fast", 800), ("foreign1", "fast", 800), ("table_audit", "fast", 700),
-            ("tableh_audit", "fast", 300)],
+            ("tableh_audit", "fast", 300), ("corrupt", "fast", 500)],
      thorough=[("tracks_audit", "fast", 60000), ("mixed_audit", "fast", 20000), ("foreign", "fast", 60000), ("foreign1", "fast", 40000), ("table_audit", "fast", 40000),
-               ("tableh_audit", "fast", 20000)],
-     relevant=["audits", "foreign_read_back", "table_rows_audited"],
+               ("tableh_audit", "fast", 20000), ("corrupt", "fast", 20000)],
+     relevant=["audits", "foreign_read_back", "table_rows_audited", "restored_cell_read_back"],
      rule="every blob the library stores during the track workloads is read raw by a second SQLite client and decoded by refcodec "
           "(an independent implementation of the Engine layouts): frame (4-byte BE length = inflated length, one complete zlib "
           "stream, loops uncompressed) and every field against the library's own observation; non-trivial = at least one audited "
@@ -143,9 +143,9 @@ prop("C18", "exploration",
           "ranges 2.18.0 / 2.20.1-2 / >=2.20.3 are sampled); non-trivial = at least one row written and compared; distinct = new plan "
           "digest reaching a new observation hash")
 prop("C03", "exploration",
-     quick=[("tableh", "fast", 900), ("tracks", "fast", 900), ("table", "fast", 500), ("tableh", "san", 60)],
-     thorough=[("tableh", "fast", 50000), ("tracks", "fast", 50000), ("table", "fast", 20000), ("tableh", "san", 3000)],
-     relevant=["t_add_ok", "t_update_ok", "t_setcol_ok", "codec_roundtrip_checked"],
+     quick=[("tableh", "fast", 900), ("tracks", "fast", 900), ("table", "fast", 500), ("tableh", "san", 60), ("corrupt", "fast", 600)],
+     thorough=[("tableh", "fast", 50000), ("tracks", "fast", 50000), ("table", "fast", 20000), ("tableh", "san", 3000), ("corrupt", "fast", 30000)],
+     relevant=["t_add_ok", "t_update_ok", "t_setcol_ok", "codec_roundtrip_checked", "restored_cell_read_back"],
      rule="the five public 2.x blob structs are generated over the statement's domain (every double class incl. -0, inf, NaN, "
           "denormals - compared by bit pattern through to_blob bytes; int edges; labels 0..300 arbitrary bytes; 0..12 entries; large "
           "grids and waveforms; arbitrary extra_data) and pushed through track_table add/update/set -> SimDisk -> get: equal, or "
@@ -310,6 +310,16 @@ class Serve:
                 self.p.wait(timeout=5)
             except Exception:
                 self.p.kill()
+
+
+class FreshServe(Serve):
+    """One fresh `djsim serve` process per execution: for violations that depend on state the library keeps outside its
+    handles (a function-local static, a thread_local), which a second execution in the same process would meet changed."""
+
+    def run(self, plan, trace=False):
+        self.close()
+        self.p = None
+        return super().run(plan, trace)
 
 
 def crash_key(res, profile):
@@ -691,6 +701,19 @@ def process_violation(pid, key, occ, seed, stride=None):
     try:
         ok1, r1 = reproduces(serve, plan, key, profile)
         ok2, r2 = reproduces(serve, plan, key, profile)
+        if not (ok1 and ok2):
+            # the first execution in a process fired and the second did not (or vice versa): the library may keep state
+            # outside its handles that the run itself changes.  One seed must still be one repeatable execution - in a
+            # fresh process: gate, minimise and replay with one process per execution.
+            fserve = FreshServe(variant)
+            f1, q1 = reproduces(fserve, plan, key, profile)
+            f2, q2 = reproduces(fserve, plan, key, profile)
+            if f1 and f2 and (q1.get("crash") or q1.get("gatehash") == q2.get("gatehash")):
+                serve.close()
+                serve = fserve
+                ok1, ok2, r1, r2 = f1, f2, q1, q2
+            else:
+                fserve.close()
         if not (ok1 and ok2):
             if stride and not is_crash_key(key):
                 hv = history_violation(pid, key, (profile, variant, run, detail, plan), seed, stride)
